@@ -167,3 +167,36 @@ Example C01_accessors_partial_ex :
   LinuxSllHeaderA.packet_type (mk_slice [0;9;0;1;0;0;0;0;0;0;0;0;0;0;8;0]) = Bug SITE_UNWRAP /\
   IpAuthHeaderA.to_header (mk_slice [17;0;0;0;0;0;0;0;0;0;0;0;0;0]) = Bug SITE_UNWRAP.
 Proof. vm_compute. repeat split. Qed.
+
+(* ---- the other decoder families --------------------------------------------
+   The same statement ("no partial primitive of the model fails, for every byte
+   string") for the decoders whose models live with other properties, restated
+   here so that C01 lists every family it rests on:
+     lax slicing (C05), struct decoding (C04); the TCP option iterator (C13_in_bounds),
+     the ICMP/NDP/IGMP/ARP views (C17_*: the specifications contain no UB value),
+     defragmentation (C11_no_panic), extension chains (C12_write_iff_walk) and the
+     readers (C16_readers_total) are stated in their own Props files. *)
+From EP Require Import Parse.Repr Parse.LaxSlices Parse.LaxCursor Parse.LaxWire Parse.LaxWireProofs
+  Parse.HdrModel Parse.HdrProofs3.
+
+Theorem C01_lax_no_oob : forall bs et b, bytes_ok bs ->
+  LaxSlicedPacket.from_ethernet bs <> Bug b /\
+  LaxSlicedPacket.from_ether_type et bs <> Bug b /\
+  LaxSlicedPacket.from_ip bs <> Bug b.
+Proof. exact lax_never_bug. Qed.
+Print Assumptions C01_lax_no_oob.
+
+Theorem C01_lax_single_no_oob : forall bs s pos lim nh, bytes_ok bs -> repr bs s pos lim ->
+  no_bug (LaxIpSlice.from_slice s) /\ no_bug (LaxIpv4Slice.from_slice s) /\
+  no_bug (LaxIpv6Slice.from_slice s) /\ no_bug (LaxMacsecSlice.from_slice s) /\
+  no_bug (UdpSlice.from_slice_lax s) /\ no_bug (LaxIpv6Exts.from_slice_lax nh s) /\
+  no_bug (LaxIpv4Exts.from_slice_lax nh s).
+Proof. exact lax_single_never_bug. Qed.
+Print Assumptions C01_lax_single_no_oob.
+
+Theorem C01_headers_no_oob : forall bs et b, bytes_ok bs ->
+  PacketHeaders.from_ethernet_slice bs <> Bug b /\
+  PacketHeaders.from_ether_type et bs <> Bug b /\
+  PacketHeaders.from_ip_slice bs <> Bug b.
+Proof. exact hdr_never_bug_raw. Qed.
+Print Assumptions C01_headers_no_oob.
